@@ -133,6 +133,12 @@ func c17Keys() []c17Key {
 		c17Key{Name: "malformed-ed25519-public-empty", Pub: ed25519.PublicKey{}, Family: "none"},
 		c17Key{Name: "malformed-ed25519-public-33-bytes", Pub: ed25519.PublicKey(make([]byte, 33)), Family: "none"},
 		c17Key{Name: "malformed-ed25519-private-3-bytes", Pub: ed25519.PublicKey{1, 2, 3}, Priv: ed25519.PrivateKey{1, 2, 3}, Family: "none"},
+		c17Key{Name: "malformed-ed25519-private-65-bytes", Pub: ed25519.PublicKey{1, 2, 3}, Priv: ed25519.PrivateKey(make([]byte, 65)), Family: "none"},
+		c17Key{Name: "malformed-ed25519-private-128-bytes", Pub: ed25519.PublicKey{1, 2, 3}, Priv: ed25519.PrivateKey(make([]byte, 128)), Family: "none"},
+		// typed-nil private keys: touching them panics (inside the standard library), so only the algorithms that
+		// have no built-in signer are asked for - they are refused without looking at the key
+		c17Key{Name: "typed-nil-rsa-private-key", Priv: (*rsa.PrivateKey)(nil), Family: "typed-nil"},
+		c17Key{Name: "typed-nil-ecdsa-private-key", Priv: (*ecdsa.PrivateKey)(nil), Family: "typed-nil"},
 		c17Key{Name: "malformed-ecdsa-nil-pointer", Pub: (*ecdsa.PublicKey)(nil), Family: "none"},
 		c17Key{Name: "malformed-ecdsa-no-coordinates", Pub: &ecdsa.PublicKey{Curve: elliptic.P256()}, Family: "none-verifier"},
 		c17Key{Name: "malformed-ecdsa-no-curve", Pub: &ecdsa.PublicKey{X: big.NewInt(1), Y: big.NewInt(1)}, Family: "none"},
@@ -197,6 +203,13 @@ func checkC17Cell(c c17Cell) error {
 	}
 	fam := algFamily(c.Alg)
 	alg := cose.Algorithm(c.Alg)
+	if k.Family == "typed-nil" {
+		if c.Side != "signer" || fam != "" {
+			stats.Class("skipped/typed-nil-key-with-a-supported-algorithm")
+			return nil
+		}
+		k = &c17Key{Name: k.Name, Priv: k.Priv, Family: "none"}
+	}
 	var err error
 	var gotAlg cose.Algorithm
 	var isNil bool
@@ -492,7 +505,7 @@ func TestC17_Sequences(t *testing.T) {
 	begin(t, "C17", "sequences")
 	var ec, rs []string
 	for _, k := range c17Keys() {
-		if k.Family == "none-verifier" {
+		if k.Family == "none-verifier" || k.Family == "typed-nil" {
 			continue
 		}
 		switch p := k.Pub.(type) {
